@@ -2,6 +2,7 @@ package props
 
 import (
 	"bytes"
+	"context"
 	"encoding/binary"
 	"fmt"
 	"sync"
@@ -188,6 +189,25 @@ func runC13Client(c *ev.Case, ctx *lib.Ctx, sc c13Script) {
 		return
 	}
 	hsDone := time.Now()
+	if c.I%2 == 1 {
+		// the application keeps state of its own in the connection's context (the API the
+		// library offers for that): it reads the context as soon as it has the connection and
+		// stores contexts derived from what it read, now and then, for as long as the
+		// connection lives. None of this is the watchdog's business either.
+		c.Class("application-stores-contexts")
+		type appKey struct{}
+		ctx0 := conn.Context()
+		go func() {
+			for i, d := range []time.Duration{0, sc.W / 3, sc.W, sc.W + sc.R/2, 3 * sc.W} {
+				select {
+				case <-mc.Closed():
+					return
+				case <-time.After(d):
+				}
+				conn.SetContext(context.WithValue(ctx0, appKey{}, i))
+			}
+		}()
+	}
 	if sc.noise > 0 {
 		// the peer also sends requests the application has no handler for; the application does
 		// not read ErrorReports.  None of this is the watchdog's business.
